@@ -4,7 +4,9 @@ from . import p2lib as L
 from . import par2common as P
 from . import par2writer as W
 
-BASES = ["arc", "Arc", "MiXed.Case", "my[1]", "we*ird", "a b", "q?x", "back\\slash", "br{ace}", "dots.in.name", "[", "x]y[z"]
+BASES = ["arc", "Arc", "MiXed.Case", "my[1]", "we*ird", "a b", "q?x", "back\\slash", "br{ace}", "dots.in.name", "[", "x]y[z",
+         # names that end in characters of the extension itself, in a dot, in digits (prefix/suffix trimming by character set)
+         "backup", "data", "par2", "photos.2022", "set.", "a.par2.par", "2", "r.p.a.r"]
 VOLNAMES = ["vol00+01", "vol7+3", "x", "a b", "part1", "more blocks", "[1]", "*", "z.y"]
 
 
